@@ -36,6 +36,61 @@ class VClock(object):
         self.slept += max(0.0, t)
 
 
+CURRENT = [None]        # the Net new sockets attach to
+CLOCK = VClock()        # one virtual clock per process (reset per case)
+
+
+def new_clock():
+    CLOCK.now, CLOCK.reads, CLOCK.slept = 1.0e6, 0, 0.0
+    return CLOCK
+
+
+class _SocketModule(object):
+    """Stands in for the `socket` module inside rig: new sockets attach to
+    the currently active Net."""
+    AF_INET = 2
+    SOCK_DGRAM = 2
+    SOL_SOCKET = 1
+    SO_REUSEADDR = 2
+    error = OSError
+    timeout = OSError
+
+    @staticmethod
+    def socket(*a, **k):
+        return FakeSocket(CURRENT[0])
+
+    @staticmethod
+    def gethostbyname(name):
+        parts = name.split(".")
+        if len(parts) == 4 and all(p.isdigit() for p in parts):
+            return name
+        return "10.%d.%d.%d" % (sum(map(ord, name)) % 250,
+                                len(name) % 250, ord(name[0]) % 250)
+
+
+class _SelectModule(object):
+    @staticmethod
+    def select(r, w, x, timeout=None):
+        clock = CLOCK
+        for s in r:
+            s.net.n_select += 1
+        ready = [s for s in r if s.inq and s.inq[0][0] <= clock.now]
+        if ready:
+            return ready, [], []
+        if timeout is None:
+            nxt = [s.inq[0][0] for s in r if s.inq]
+            if not nxt:
+                raise RuntimeError("select() would block forever")
+            clock.now = max(clock.now, min(nxt))
+        else:
+            deadline = clock.now + max(0.0, timeout)
+            nxt = [s.inq[0][0] for s in r if s.inq and
+                   s.inq[0][0] <= deadline]
+            clock.now = max(clock.now, min(nxt)) if nxt else deadline
+        ready = [s for s in r if s.inq and s.inq[0][0] <= clock.now]
+        return ready, [], []
+
+
 class FakeSocket(object):
     def __init__(self, net):
         self.net = net
@@ -91,8 +146,11 @@ class FakeSocket(object):
 
 
 class Net(object):
-    def __init__(self, clock=None, rtt=0.002):
-        self.clock = clock or VClock()
+    def __init__(self, clock=None, rtt=0.002, reset_clock=True):
+        self.clock = CLOCK
+        if reset_clock and CURRENT[0] is None:
+            new_clock()
+        CURRENT[0] = self
         self.rtt = rtt
         self.hosts = {}         # host -> handler(sock, addr, data) -> reply/None
         self.default_handler = None
@@ -108,54 +166,15 @@ class Net(object):
     def add_host(self, host, handler):
         self.hosts[host] = handler
 
+    def activate(self):
+        """New sockets (e.g. connections discovered later) attach here."""
+        CURRENT[0] = self
+
     def socket_module(self):
-        net = self
-
-        class M(object):
-            AF_INET = 2
-            SOCK_DGRAM = 2
-            SOL_SOCKET = 1
-            SO_REUSEADDR = 2
-            error = OSError
-            timeout = OSError
-
-            @staticmethod
-            def socket(*a, **k):
-                return FakeSocket(net)
-
-            @staticmethod
-            def gethostbyname(name):
-                parts = name.split(".")
-                if len(parts) == 4 and all(p.isdigit() for p in parts):
-                    return name
-                return "10.%d.%d.%d" % (sum(map(ord, name)) % 250,
-                                        len(name) % 250, ord(name[0]) % 250)
-        return M
+        return _SocketModule
 
     def select_module(self):
-        net = self
-
-        class S(object):
-            @staticmethod
-            def select(r, w, x, timeout=None):
-                net.n_select += 1
-                clock = net.clock
-                ready = [s for s in r if s.inq and s.inq[0][0] <= clock.now]
-                if ready:
-                    return ready, [], []
-                if timeout is None:
-                    nxt = [s.inq[0][0] for s in r if s.inq]
-                    if not nxt:
-                        raise RuntimeError("select() would block forever")
-                    clock.now = max(clock.now, min(nxt))
-                else:
-                    deadline = clock.now + max(0.0, timeout)
-                    nxt = [s.inq[0][0] for s in r if s.inq and
-                           s.inq[0][0] <= deadline]
-                    clock.now = max(clock.now, min(nxt)) if nxt else deadline
-                ready = [s for s in r if s.inq and s.inq[0][0] <= clock.now]
-                return ready, [], []
-        return S
+        return _SelectModule
 
     # ---- traffic
     def transmit(self, sock, data):
@@ -193,7 +212,8 @@ class Net(object):
 
     def bind(self, *modules):
         """Rebind socket/select/time in the given rig modules."""
-        sm, sel = self.socket_module(), self.select_module()
+        sm, sel = _SocketModule, _SelectModule
+        self.activate()
         for m in modules:
             if hasattr(m, "socket"):
                 m.socket = sm
